@@ -12,6 +12,7 @@ import (
 	"os"
 	"os/exec"
 	"path/filepath"
+	"regexp"
 	"sort"
 	"strconv"
 	"strings"
@@ -227,6 +228,12 @@ type SigFunc func(msg string, v *explore.Violation) string
 
 // Explore explores one scenario up to maxD deviations with this shard's share
 // of the level-1 subtrees, recording coverage and violations.
+// normMsg removes what legitimately differs between two runs of the same schedule from a failure text:
+// addresses and native goroutine numbers in the stack trace of a panic.
+var normRe = regexp.MustCompile(`0x[0-9a-f]+|goroutine \d+|\{[^{}]*\}`)
+
+func normMsg(s string) string { return normRe.ReplaceAllString(s, "#") }
+
 func (c *Ctx) Explore(sc *explore.Scenario, maxD int, sig SigFunc) *explore.Stats {
 	st := explore.NewStats()
 	ex := &explore.Explorer{Sc: sc, Stats: st, Deadline: c.Deadline, ShardIndex: c.Shard, ShardCount: c.NShards}
@@ -247,7 +254,7 @@ func (c *Ctx) Explore(sc *explore.Scenario, maxD int, sig SigFunc) *explore.Stat
 		// reproduce 5x before believing it
 		for i := 0; i < 5; i++ {
 			_, m2, _, div := explore.Replay(sc, v.Choices)
-			if div != "" || m2 != v.Msg {
+			if div != "" || normMsg(m2) != normMsg(v.Msg) {
 				c.Res.HarnessErr = fmt.Sprintf("scenario %s: violation does not reproduce deterministically (run %d: %q vs %q, divergence %q)",
 					sc.Name, i, m2, v.Msg, div)
 				return true
